@@ -125,7 +125,28 @@ func c15FixedTables() []gen.TableSpec {
 		{HasHeader: true, Header: []gen.ItemSpec{s("a"), s("b"), s("c"), s("d")}, HeaderAt: 2, Rows: []gen.RowSpec{{Items: []gen.ItemSpec{s("1"), s("2"), s("3"), s("4")}, Mode: gen.ModeNewRowAdd}, {Items: []gen.ItemSpec{s("1"), s("2")}, Mode: gen.ModeAppendThenAdd}}},
 		{},
 		{HasHeader: true, Header: []gen.ItemSpec{}},
+		c15Tall(),
 	}
+}
+
+// c15Tall is a table of 70 rows (some of several lines, some separators): every renderer makes far more
+// write calls for it than any plausible internal batch size.
+func c15Tall() gen.TableSpec {
+	s := gen.StrItem
+	t := gen.TableSpec{HasHeader: true, Header: []gen.ItemSpec{s("n"), s("text")}}
+	for i := 0; i < 70; i++ {
+		switch {
+		case i%17 == 5:
+			t.Rows = append(t.Rows, gen.RowSpec{Sep: true})
+		case i%9 == 2:
+			t.Rows = append(t.Rows, gen.RowSpec{Items: []gen.ItemSpec{{K: "int", Num: int64(i)}, s("two\nlines")}})
+		case i%13 == 7:
+			t.Rows = append(t.Rows, gen.RowSpec{Items: []gen.ItemSpec{{K: "int", Num: int64(i)}}})
+		default:
+			t.Rows = append(t.Rows, gen.RowSpec{Items: []gen.ItemSpec{{K: "int", Num: int64(i)}, s("row")}})
+		}
+	}
+	return t
 }
 
 type c15Case struct {
@@ -331,7 +352,7 @@ func init() {
 		ID:    "C15",
 		Level: "fault_enumeration",
 		Rule: "for each (table, renderer) the fault-free run counts N Write calls and records the reference bytes; then EVERY k in 1..N x 3 modes {fails from call k on, fails only at call k, accepts half of call k's bytes and returns an error} is injected through a scripted io.Writer and again through a scripted writer that also implements io.StringWriter (exhaustive per table and renderer). Renderers: csv, json, markdown, html, html with class/id/caption/row-class generator, text under every registered decoration. " +
-			"phase 0: 8 fixed tables chosen to reach every write site (header/no header/empty header/only header, separators leading/trailing/consecutive, ragged and zero-cell rows, multi-line cells, rows extended after attach, no columns) x {plain, JSON skipable default}; phase 1: random tables; phase 2 (thorough): the same renderers writing to a real file whose k-th write(2) fails with ENOSPC under strace -e inject (k random per case, 'only k' and 'from k on'). " +
+			"phase 0: 9 fixed tables (one of them 70 rows tall) chosen to reach every write site (header/no header/empty header/only header, separators leading/trailing/consecutive, ragged and zero-cell rows, multi-line cells, rows extended after attach, no columns) x {plain, JSON skipable default}; phase 1: random tables; phase 2 (thorough): the same renderers writing to a real file whose k-th write(2) fails with ENOSPC under strace -e inject (k random per case, 'only k' and 'from k on'). " +
 			"Distinct = distinct (table, renderer); non-trivial = the fault-free run makes at least one Write call.",
 		Assumptions: []string{
 			"a writer returning a short count with a nil error breaks the io.Writer contract and is not injected",
@@ -339,7 +360,7 @@ func init() {
 			"each injection runs on a freshly built table and wrapper",
 		},
 		Phases: []Phase{
-			{Name: "8 fixed tables x 2 x all renderers x every k x 3 modes", Exhaustive: true, N: Fixed(nt*2, nt*2), Run: c15Fixed},
+			{Name: "9 fixed tables x 2 x all renderers x every k x 3 modes x 2 writer kinds", Exhaustive: true, N: Fixed(nt*2, nt*2), Run: c15Fixed},
 			{Name: "random tables x all renderers x every k x 3 modes", N: Fixed(32, 2000), Run: c15Random},
 			{Name: "real write(2) failing with ENOSPC under strace (thorough only)", N: Fixed(0, 160), Run: c15Strace},
 		},
